@@ -766,7 +766,9 @@ func (r *runner) judgeID(v *svec, via string, q *dns.Msg, m *dns.Msg, err error)
 				mis("matching-reply-refused", fmt.Sprintf("Exchange failed with %v although reply %d matches", err, v.Idx))
 			}
 		} else if m.Id != q.Id || replyIdx(m) != v.Idx {
-			mis("wrong-reply-returned", fmt.Sprintf("Exchange returned reply #%d with id %d, spec: reply #%d", replyIdx(m), m.Id, v.Idx))
+			mis("wrong-reply-returned", fmt.Sprintf("Exchange returned reply #%d with id %d (query %d), spec: reply #%d", replyIdx(m), m.Id, q.Id, v.Idx))
+		} else if len(m.Question) != 1 || m.Question[0] != q.Question[0] {
+			mis("wrong-reply-returned", fmt.Sprintf("Exchange returned a reply for question %v, asked %v", m.Question, q.Question))
 		}
 	case "errid":
 		if err != dns.ErrId {
@@ -952,10 +954,10 @@ func (r *runner) id(v *svec, i int) {
 			}
 		}
 		if v.Path == "" {
-			if waits && !(len(v.Inbox) <= 1 || i%50 == 0) {
+			if waits && !(len(v.Inbox) <= 1 || len(v.Inbox) == 9 || i%50 == 0) {
 				continue // each of these costs a real deadline
 			}
-			if !waits && !(len(v.Inbox) <= 2 || i%5 == 0) {
+			if !waits && !(len(v.Inbox) <= 2 || len(v.Inbox) >= 8 || i%5 == 0) {
 				continue
 			}
 		}
